@@ -72,6 +72,10 @@ def _strategy(draw):
         shape = draw(st.sampled_from(sorted(SHAPES)))
         n = SHAPES[shape][0]
         pre = sorted(draw(st.lists(st.integers(0, n - 1), max_size=3, unique=True))) if draw(st.booleans()) else []
+        if n >= 4 and draw(st.integers(0, 3)) == 0:
+            # supplied and built residues alternate in the growth order (a supplied backbone whose pendants are
+            # rebuilt, a host with several ligands): every other node is pre-positioned
+            pre = list(range(draw(st.integers(0, 1)), n, 2))
         if len(pre) == n:
             pre = pre[:-1]
         mols.append({"shape": shape, "pre": pre})
